@@ -34,6 +34,20 @@ func propTable() map[string]*PropSpec {
 		for _, n := range []int{4, 7} {
 			quick = append(quick, arith(rc(fmt.Sprintf("C18_Leader/n=%d/idlen=4", n), "services/termincommittee", "C18_Leader", map[string]int{"n": n, "idlen": 4})))
 		}
+		// the leader function as the node uses it: ordered committee with a zero-weight member, views 0..5
+		for _, me := range []int{0, 1, 3} {
+			for to := 0; to <= 5; to++ {
+				if int(uint64(to)%4) == me {
+					continue // the node leads that view itself
+				}
+				c := rc(fmt.Sprintf("C18_NodeLeader/me=%d/timeouts=%d/weights=5", me, to), ".", "C18_NodeLeader", map[string]int{"me": me, "timeouts": to, "weights": 5})
+				c.RequireReach = []string{"C18.node.accepted_current_view"}
+				thorough = append(thorough, c)
+				if me == 1 && (to == 0 || to == 2 || to == 3) {
+					quick = append(quick, c)
+				}
+			}
+		}
 		t["C18"] = &PropSpec{ID: "C18", Quick: quick, Thorough: thorough,
 			Bounds:  []string{"committee size n concrete per query (quick: 4,5,7,22,64; thorough: every n in 4..64); view fully symbolic over 64 bits; window offset symbolic in 1..n-1"},
 			Outside: []string{"committee sizes above 64"},
@@ -332,6 +346,35 @@ func propTable() map[string]*PropSpec {
 			th = append(th, nv(pf, 3, 1, 2), nv(pf, 3, 1, 3), nv(pf, 3, 2, 2), nv(pf, 3, 4, 2))
 		}
 		th = append(th, nv(3, 3, 3, 2), nv(3, 4, 1, 2), nv(3, 3, 5, 2))
+		// weights 1,2,3,4: two votes already reach the quorum, the third (surplus) vote carries the proof
+		surplus := nv(3, 3, 4, 2)
+		surplus.Name += "/weights=2"
+		surplus.Params["weights"] = 2
+		th = append(th, surplus, nv(3, 4, 8, 2))
+		// boundary: all hashes empty (one proof-carrying vote / no proof)
+		for _, mask := range []int{1, 0} {
+			eh := nv(3, 3, mask, 2*mask)
+			eh.Name += "/hashlen=0"
+			eh.Params["hashlen"] = 0
+			th = append(th, eh)
+		}
+		ehq := nv(3, 3, 4, 2)
+		ehq.Name += "/weights=2/genuine=2/me=0/hashlen=0"
+		ehq.Params["weights"], ehq.Params["genuine"], ehq.Params["me"], ehq.Params["hashlen"] = 2, 2, 0, 0
+		q = append(q, ehq)
+		th = append(th, ehq)
+		// the same with the two quorum-completing votes genuine (cheap enough for the quick tier)
+		sg := nv(3, 3, 4, 2)
+		sg.Name += "/weights=2/genuine=2/me=0"
+		sg.Params["weights"], sg.Params["genuine"], sg.Params["me"] = 2, 2, 0
+		sg.RequireReach = []string{"C07.accepted"}
+		q = append(q, sg)
+		th = append(th, sg)
+		// the consumer's validation of a fresh NEW_VIEW proposal is aborted by a cancellation while it runs
+		spi3 := rc("C15_SPI/site=3", ".", "C15_SPI", map[string]int{"site": 3})
+		spi3.RequireReach = []string{"C15.spi.cancelled"}
+		q = append(q, spi3)
+		th = append(th, spi3)
 		fnv := rc("C07_FutureNewView", ".", "C07_FutureNewView", nil)
 		fnv.RequireReach = []string{"C07.future.adopted", "C07.future.ignored"}
 		q = append(q, fnv)
@@ -368,6 +411,12 @@ func propTable() map[string]*PropSpec {
 				q = append(q, c)
 			}
 		}
+		// a committee with a zero-weight member whose genuine COMMIT ends up in the certificate
+		zw := mk(1, 3, 1)
+		zw.Name += "/weights=5"
+		zw.Params = map[string]int{"me": 1, "honest": 3, "sym": 1, "weights": 5}
+		q = append(q, zw)
+		th = append(th, zw)
 		// delayed view-0 COMMITs after a view change and a symbolic later-view PREPREPARE
 		for _, me := range []int{1, 2, 3} {
 			for _, prep := range []int{0, 1} {
@@ -401,6 +450,11 @@ func propTable() map[string]*PropSpec {
 				}
 			}
 		}
+		// boundary: every hash of the symbolic NEW_VIEW is empty
+		eh4 := rc("C04_NewViewCommit/me=2/proofmask=1/hashlen=0", ".", "C04_NewViewCommit", map[string]int{"me": 2, "proofmask": 1, "hashlen": 0})
+		eh4.MaxPaths = 400000
+		q4 = append(q4, eh4)
+		th4 = append(th4, eh4)
 		// the node still holds the (unprepared) view-0 proposal when the symbolic NEW_VIEW arrives
 		for _, me := range []int{2, 3} {
 			c := rc(fmt.Sprintf("C04_NewViewCommit/me=%d/proofmask=0/prefix=7", me), ".", "C04_NewViewCommit", map[string]int{"me": me, "proofmask": 0, "prefix": 7})
@@ -495,6 +549,26 @@ func propTable() map[string]*PropSpec {
 				}
 			}
 		}
+		// two symbolic PREPREPAREs with a consumer that approves block-less proposals; a re-sync of the previous block
+		// followed by a symbolic PREPREPARE / PREPARE
+		for _, me := range []int{1, 2} {
+			for _, pf := range []int{0, 3} {
+				c := mk(me, pf, 2, 0)
+				c.Name += "/lenient=1"
+				c.Params["lenient"] = 1
+				th = append(th, c)
+				if me == 1 {
+					q = append(q, c)
+				}
+			}
+			for _, seq := range []int{90, 91, 94} {
+				c := mk(me, 1, 2, seq)
+				th = append(th, c)
+				if me == 1 && seq == 90 {
+					q = append(q, c)
+				}
+			}
+		}
 		for _, seq := range []int{4, 40, 44, 404, 440, 414, 441, 144, 43, 434, 34, 340, 341, 403, 413, 12, 120, 124, 412, 421, 241, 142, 466, 646, 664, 661, 616, 166, 665, 656, 460, 640} {
 			for _, me := range []int{1, 2} {
 				th = append(th, mk(me, 2, 3, seq), mk(me, 0, 3, seq))
@@ -569,6 +643,10 @@ func propTable() map[string]*PropSpec {
 			q = append(q, c)
 			th = append(th, c)
 		}
+		mlf := rc("C17_MainLoopForward", ".", "C17_MainLoopForward", nil)
+		mlf.RequireReach = []string{"C17.main.future"}
+		q = append(q, mlf)
+		th = append(th, mlf)
 		t["C17"] = &PropSpec{ID: "C17", Quick: q, Thorough: th, LabelPrefixes: []string{"C17."},
 			Assumptions: []string{"messages are PREPAREs built with the real factory; the message number is carried in the (concrete) view field; reading of the ordering clause: 'before it' = before the node starts height H (DESIGN.md section 6/C17)"},
 			Bounds:      []string{"k operations (quick 3 and 4, thorough up to 5), each a symbolic choice of receive(message with symbolic 64-bit height, symbolic instance, symbolic sender byte) or advance(symbolic larger height); start height symbolic >= 1"},
@@ -644,7 +722,7 @@ func propTable() map[string]*PropSpec {
 			}
 		}
 		t["C13"] = &PropSpec{ID: "C13", Quick: q, Thorough: th, LabelPrefixes: []string{"C13."},
-			StaticChecks: []func(eng *Engine) (string, bool, string){staticSingleWriter},
+			StaticChecks: []func(eng *Engine) (string, bool, string){staticSingleWriter, staticStateAtomic},
 			Assumptions:  []string{"sequential reduction: State methods are mutex-atomic and (statically checked each run) height/view are written only by the State mutators reached from the worker, so every interleaving of the two goroutines is a sequence of worker events with context cancellations interleaved at SPI calls"},
 			Bounds:       []string{"State mutators: 2..3 operations with symbolic arguments from a symbolic state; worker: symbolic start height, then 2 (quick) / 3 (thorough) events out of {honest commit round with symbolic callback failure, sync to a symbolic height, election timeout, re-delivered traffic of the previous height}"},
 			Outside:      []string{"the real two-goroutine scheduler (replaced by the reduction above)"},
@@ -677,7 +755,7 @@ func propTable() map[string]*PropSpec {
 		fq14.RequireReach = []string{"C12.fullqueue.done"}
 		q = append(q, fq14)
 		t["C14"] = &PropSpec{ID: "C14", Quick: q, Thorough: q, LabelPrefixes: []string{"C14."},
-			StaticChecks: []func(eng *Engine) (string, bool, string){staticSingleSender, staticSingleWriter},
+			StaticChecks: []func(eng *Engine) (string, bool, string){staticSingleSender, staticSingleWriter, staticStateAtomic},
 			Assumptions:  []string{"same sequential reduction as C13; the main loop is (statically checked) the only sender on the worker's update-state channel"},
 			Bounds:       []string{"worker: symbolic start height and symbolic sync height (older / equal / newer), followed by a second older sync; main loop: 1..3 UpdateState calls with symbolic heights, worker channel empty or pre-filled, in the channel model; sync to a symbolic height handled by the main loop while the worker is inside the commit callback (the main loop runs from inside the callback until it parks)"},
 			Outside:      []string{"real-time 'indefinitely'; syncs racing a commit on the real scheduler"},
